@@ -4,21 +4,33 @@
 (* workbook; the case carries the file layout (rows and cells in file order,  *)
 (* every reference rendered by the spec's own codec, the shared string table) *)
 (* and the expected displayed cells, merged-region blanks and content box.    *)
-EXTENDS Sheet, Json
+EXTENDS Sheet, Json, SequencesExt
 
 \* --- constants for the configs ---
 OffSmall == { <<0, 0>>, <<24, 7>> }                 \* A1.. ; Y8.. (crosses Z/AA and 9/10)
 OffAll   == { <<0, 0>>, <<24, 7>>, <<1, 2>>, <<698, 196>> }   \* .. ; ZW197..ZZ200 with Window 4
 OffZZ3   == { <<0, 0>>, <<24, 7>>, <<699, 197>> }   \* Window 3: ZX198..ZZ200
-LayAll   == { [rowR |-> a, sstRev |-> b] : a, b \in BOOLEAN }
-LayStd   == { [rowR |-> TRUE, sstRev |-> FALSE] }
-LayTwo   == { [rowR |-> TRUE, sstRev |-> FALSE], [rowR |-> FALSE, sstRev |-> TRUE] }
+\* layout of the file: rowR  - <row> elements carry their r attribute
+\*                     sstRev - shared string table reversed behind an unused plain item
+\*                     perm  - <<>> or a permutation of 1..4: the items are ordered by perm[order of use]
+\*                     pad   - extra items nobody needs: "none", "emptyFirst" / "emptyMid" / "emptyLast"
+\*                             (an empty <si/>), "richFirst" (an unused item made of rich-text runs)
+Lay(a, b, p, d) == [rowR |-> a, sstRev |-> b, perm |-> p, pad |-> d]
+LayAll   == { Lay(a, b, <<>>, "none") : a, b \in BOOLEAN }
+LayStd   == { Lay(TRUE, FALSE, <<>>, "none") }
+LayTwo   == { Lay(TRUE, FALSE, <<>>, "none"), Lay(FALSE, TRUE, <<>>, "none") }
+Perms4   == {p \in [1..4 -> 1..4] : \A i, j \in 1..4 : (p[i] = p[j]) => i = j}
+\* shared-string focus: every order of up to 4 items x every padding
+LaySst   == { Lay(TRUE, FALSE, p, d) : p \in Perms4, d \in {"none", "emptyFirst", "emptyMid", "emptyLast", "richFirst"} }
+KindsAll == Kinds
+\* several rich-text items, plain ones and references to an empty item
+KindsSst == <<"sr", "s", "sr", "se", "sr">>
 RotStep2 == {0, 2, 4, 6, 8}
 RotStep3 == {0, 3, 6}
 Off00    == { <<0, 0>> }
 \* a few shapes: 1x2, 2x1, 2x2 at the corner, 2x2 / 1x2 / 2x1 inside, the whole window
 FewRects == { <<1,1,2,1>>, <<1,1,1,2>>, <<1,1,2,2>>, <<2,2,3,3>>, <<2,1,3,1>>, <<1,2,1,3>>, <<1,1,3,3>> }
-RotAll   == 0..9
+RotAll   == 0..10
 
 \* --- file layout ---
 \* row elements in order of first appearance of their row among the items
@@ -34,17 +46,30 @@ Concat(f, k) == IF k = 0 THEN <<>> ELSE Concat(f, k - 1) \o f[k]
 AllItems == Concat(items, cur)
 
 Shared  == SelectSeq(AllItems, LAMBDA it : it.t \in {"s", "sr"})
-Entries == [i \in 1..Len(Shared) |-> [v |-> Shared[i].v, rich |-> Shared[i].t = "sr"]]
+Entries == [i \in 1..Len(Shared) |-> [v |-> Shared[i].v, rich |-> Shared[i].t = "sr", empty |-> FALSE]]
 Rev(q)  == [i \in 1..Len(q) |-> q[Len(q) + 1 - i]]
-\* the table either lists the strings in order of first use, or reversed behind an
-\* unused entry (token 0 is never shown by any cell)
-SST     == IF lay.sstRev THEN <<[v |-> 0, rich |-> FALSE]>> \o Rev(Entries) ELSE Entries
-SI(it)  == IF it.t \in {"s", "sr"} THEN (CHOOSE i \in 1..Len(SST) : SST[i].v = it.v) - 1 ELSE 0 - 1
+EmptySI == [v |-> 0, rich |-> FALSE, empty |-> TRUE]
+\* order: as used, reversed behind an unused item (token 0 is never shown by any cell), or by lay.perm
+Ordered4(q) == IF lay.perm = <<>> \/ Len(q) > Len(lay.perm) THEN q
+               ELSE SortSeq(q, LAMBDA a, b : lay.perm[CHOOSE i \in 1..Len(q) : q[i] = a] < lay.perm[CHOOSE i \in 1..Len(q) : q[i] = b])
+Base    == IF lay.sstRev THEN <<[v |-> 0, rich |-> FALSE, empty |-> FALSE]>> \o Rev(Entries) ELSE Ordered4(Entries)
+Padded  == CASE lay.pad = "emptyFirst" -> <<EmptySI>> \o Base
+             [] lay.pad = "emptyLast"  -> Base \o <<EmptySI>>
+             [] lay.pad = "emptyMid"   -> IF Base = <<>> THEN <<EmptySI>> ELSE <<Base[1], EmptySI>> \o SubSeq(Base, 2, Len(Base))
+             [] lay.pad = "richFirst"  -> <<[v |-> 0, rich |-> TRUE, empty |-> FALSE]>> \o Base
+             [] OTHER -> Base
+NeedEmpty == \E i \in 1..Len(AllItems) : AllItems[i].t = "se"
+HasEmpty(q) == \E i \in 1..Len(q) : q[i].empty
+\* a cell of kind se needs an empty item to point at
+SST     == IF NeedEmpty /\ ~HasEmpty(Padded) THEN Padded \o <<EmptySI>> ELSE Padded
+SI(it)  == CASE it.t \in {"s", "sr"} -> (CHOOSE i \in 1..Len(SST) : ~SST[i].empty /\ SST[i].v = it.v) - 1
+             [] it.t = "se" -> (CHOOSE i \in 1..Len(SST) : SST[i].empty) - 1
+             [] OTHER -> 0 - 1
 
 \* d is the content the writer puts into the cell (for every kind the content IS the
 \* displayed value; a blank cell element has none)
 CellOut(it) == [c |-> it.c, r |-> it.r, t |-> it.t, v |-> it.v, si |-> SI(it), ref |-> Ref(it.c, it.r),
-                d |-> IF it.t = "z" THEN [k |-> "z", v |-> 0] ELSE Display(it.t, it.v)]
+                d |-> IF it.t \in Blank THEN [k |-> "z", v |-> 0] ELSE Display(it.t, it.v)]
 RowsOf(its) ==
     LET ro == RowOrder(its) IN
     [k \in 1..Len(ro) |->
@@ -61,7 +86,7 @@ SheetOut(sh) ==
      covered |-> {[c |-> p[1], r |-> p[2]] : p \in CoveredSet(sh)},
      bounds  |-> Bounds(sh)]
 
-Case == [off |-> off, rot |-> rot, rowR |-> lay.rowR, sstRev |-> lay.sstRev, ncells |-> nv,
+Case == [off |-> off, rot |-> rot, rowR |-> lay.rowR, sstRev |-> lay.sstRev, perm |-> lay.perm, pad |-> lay.pad, ncells |-> nv,
          sst |-> SST, sheets |-> [sh \in 1..cur |-> SheetOut(sh)]]
 
 Emit == (items[cur] # <<>>) => PrintT(ToJson(Case))
